@@ -1,1 +1,2 @@
+pub mod asp;
 pub mod fol;
